@@ -75,6 +75,17 @@ impl FrameSpec {
                 for v in p.data.iter_mut() {
                     *v = T::cast_from(e.below(max as u64 + 1) as u16);
                 }
+                if self.fill_seed % 3 == 0 && !self.u8_storage {
+                    // padding holds arbitrary 16-bit junk (what a decoder's edge extension or an uninitialised
+                    // allocation leaves there): only *visible* samples are subject to the depth
+                    let (st, xo, yo, w, h) = (p.cfg.stride.max(1), p.cfg.xorigin, p.cfg.yorigin, p.cfg.width, p.cfg.height);
+                    for (k, v) in p.data.iter_mut().enumerate() {
+                        let (row, col) = (k / st, k % st);
+                        if !(row >= yo && row < yo + h && col >= xo && col < xo + w) {
+                            *v = T::cast_from(e.below(65536) as u16);
+                        }
+                    }
+                }
                 p
             };
             if let Some((bp, prefer_visible, idx, val)) = self.bad {
